@@ -270,7 +270,11 @@ func (d *c16) writeFrame(async bool) {
 // read path queues is submitted at that moment.
 func (d *c16) pingFromServer(async bool) {
 	c, w := d.c, d.w
-	p := d.payload(w.Pick(3, 0, 1, 125))
+	n := w.Pick(3, 0, 1, 125)
+	if n > d.max {
+		n = d.max // the configured maximum bounds incoming frames too
+	}
+	p := d.payload(n)
 	d.feed(wsEncode(wsFrame{Fin: true, Opcode: wsPing, Payload: p}, -1, -1), nil)
 	var (
 		f   websocket.Frame
@@ -379,7 +383,7 @@ func runC16(c *Ctx, variant int) {
 		w.EnableFaults(sim.FSegment, sim.FShortWrite, sim.FPoolEmpty, sim.FDelay)
 		w.TCPSndCap = w.Pick(1<<20, 64, 1500, 70000)
 	}
-	d.max = w.Pick(100000, 1000, 70000)
+	d.max = w.Pick(100000, 1000, 70000, 4321, 126, 125, 7)
 	if variant >= 0 {
 		d.max = 100000
 		transport = 2 * (variant % 2)
